@@ -691,6 +691,40 @@ def p_round(I, n, pos, kw):
     return I.unknown("round", n)
 
 
+@prim("numpy.round", "numpy.around", "numpy.round_")
+def p_np_round(I, n, pos, kw):
+    dec = kw.get("decimals", pos[1] if len(pos) > 1 else None)
+    if dec is not None and not (isinstance(dec, Sc) and dec.e == sym.ZERO):
+        return I.unknown("round-decimals", n)
+    return arrays.unop(lambda e: sym.fn("rint", e), pos[0])
+
+
+@prim("numpy.isclose", "math.isclose")
+def p_isclose(I, n, pos, kw):
+    """|a − b| <= atol + rtol·|b| (numpy's defaults 1e-8 and 1e-5; math.isclose: rel_tol 1e-9 of the larger, abs_tol 0)"""
+    if len(pos) < 2:
+        return I.unknown("isclose-arity", n)
+    tgt = I.log[-1].get("target", "numpy.isclose") if I.log else "numpy.isclose"
+
+    def num(v, default):
+        if v is None:
+            return sym.Num(default)
+        return v.e if isinstance(v, Sc) and v.e is not None else None
+    if tgt.startswith("math."):
+        rt, at = num(kw.get("rel_tol"), 1e-9), num(kw.get("abs_tol"), 0.0)
+    else:
+        rt, at = num(kw.get("rtol", pos[2] if len(pos) > 2 else None), 1e-5), num(kw.get("atol", pos[3] if len(pos) > 3 else None), 1e-8)
+    if rt is None or at is None:
+        return I.unknown("isclose-tolerance", n)
+    if tgt.startswith("math."):
+        f = lambda a, b: sym.Cmp("<=", sym.fn("abs", sym.sub(a, b)),
+                                 sym.fn("max", sym.mul(rt, sym.fn("max", sym.fn("abs", a), sym.fn("abs", b))), at))
+    else:
+        f = lambda a, b: sym.Cmp("<=", sym.fn("abs", sym.sub(a, b)), sym.add(at, sym.mul(rt, sym.fn("abs", b))))
+    I.event("tolerance", n, a=pos[0], b=pos[1])
+    return arrays.binop(f, pos[0], pos[1])
+
+
 @prim("builtins.abs", "numpy.abs", "numpy.absolute", "numpy.fabs")
 def p_abs(I, n, pos, kw):
     return arrays.unop(lambda e: sym.fn("abs", e), pos[0])
